@@ -805,6 +805,13 @@ sock_close(nni_sock *s, bool device)
 	}
 	nni_mtx_unlock(&sock_lk);
 
+	// An operation whose caller had looked the socket up before we got
+	// here can have been submitted after the protocol failed its waiters
+	// in sock_shutdown.  Nobody can find the socket any more, and all
+	// such callers have left, so fail those stragglers now; otherwise
+	// they would stay pending forever.
+	s->s_sock_ops.sock_close(s->s_data);
+
 	// Because we already shut everything down before, we should not
 	// have any child objects.
 	nni_mtx_lock(&s->s_mx);
